@@ -47,7 +47,7 @@ struct C13 {
     thorough: bool,
 }
 
-const PAYLOADS: [u32; 11] = [0, 1, 31, 32, 33, 135, 136, 137, 272, 4096, 40960];
+const PAYLOADS: [u32; 14] = [0, 1, 31, 32, 33, 135, 136, 137, 272, 4096, 40960, 65_536, 65_537, 200_000];
 
 fn chain_str(i: u8) -> String {
     match i {
@@ -165,7 +165,7 @@ impl Scenario for C13 {
                 for addr in 0..3u8 {
                     if self.thorough && chain == 1 && addr == 0 {
                         // every payload length around all Keccak-256 block boundaries up to 3 blocks, plus large ones
-                        for payload in (0..=410u32).chain([4096, 16384, 16385, 40960, 65536]) {
+                        for payload in (0..=410u32).chain([4096, 16384, 16385, 40960, 65536, 65537, 131_072, 131_073, 200_000, 1_000_000]) {
                             v.push(Act { who, chain, addr, payload });
                         }
                         continue;
@@ -277,7 +277,7 @@ fn main() {
     main_for(|tier| {
         let mut o = Opts::new(tier, 1);
         o.level = "exploration";
-        o.rule = "exhaustive grid from 5 gateway states (fresh, with approvals, after a rotation, after three rotations with retention 1, inside the rotation-delay window after a bypass rotation): sender/authorisation in {principal signing; another principal signing; nobody; principal signing a different call; both signing; contract naming itself as caller; contract naming another address; account-type address authorised / unauthorised; unauthorised direct calls naming the gateway itself, another contract, the gateway's owner} x destination chain {empty, lower-case ASCII, 300 chars, multi-byte, mixed case with surrounding blanks} x destination address {hex, empty, non-ASCII} x payload length {0,1,31,32,33,135,136,137,272,4096,40960} (Keccak rate boundaries; thorough: every length 0..=410 and 16 KiB / 16 KiB+1 / 64 KiB for the ASCII destination); one case is non-trivial and distinct when its (base state, sender mode, strings, payload) tuple differs".into();
+        o.rule = "exhaustive grid from 5 gateway states (fresh, with approvals, after a rotation, after three rotations with retention 1, inside the rotation-delay window after a bypass rotation): sender/authorisation in {principal signing; another principal signing; nobody; principal signing a different call; both signing; contract naming itself as caller; contract naming another address; account-type address authorised / unauthorised; unauthorised direct calls naming the gateway itself, another contract, the gateway's owner} x destination chain {empty, lower-case ASCII, 300 chars, multi-byte, mixed case with surrounding blanks} x destination address {hex, empty, non-ASCII} x payload length {0,1,31,32,33,135,136,137,272,4096,40960,65536,65537,200000} (Keccak rate boundaries; thorough: every length 0..=410 and 16 KiB / 16 KiB+1 / 64 KiB / 64 KiB+1 / 128 KiB / 128 KiB+1 / 1,000,000 for the ASCII destination); one case is non-trivial and distinct when its (base state, sender mode, strings, payload) tuple differs".into();
         (C13 { thorough: tier == "thorough" }, o)
     });
 }
